@@ -221,6 +221,20 @@ def run(ctx):
             if n.get("else"):
                 scan(n["else"], guards)
             return
+        if kk == "Match":
+            scan(n["scrut"], guards)
+            sty = (H.strip(n["scrut"]).get("ty") or "")
+            for a_ in n["arms"]:
+                g2 = list(guards)
+                if "Option<" in sty and "String" in sty and any(H.last(v_) == "None" for v_ in H.pat_variants(a_["pat"])) and H.kind(a_["pat"]) != "Or":
+                    g2.append({"k": "NoneArm"})
+                elif True:
+                    g2.append({"k": "OtherArm"})
+                if a_.get("guard") is not None:
+                    scan(a_["guard"], g2)
+                    g2 = g2 + [a_["guard"]]
+                scan(a_["body"], g2)
+            return
         if kk == "Macro" and n["name"] in ("println", "print"):
             for t in H.macro_templates(cli, n):
                 txt = H.template_text(t)
@@ -247,6 +261,22 @@ def run(ctx):
             for p_ in parts:
                 if H.kind(p_) == "MethodCall" and p_["name"] == "is_none" and "Option<" in p_.get("recv_ty", "") and "alloc::string::String" in p_.get("recv_ty", ""):
                     ok = True
+                if isinstance(p_, dict) and p_.get("k") == "NoneArm":
+                    ok = True   # `match output_path { None if .. => println!("{}") .. }`
+        if not ok:
+            # guarded by something this rule cannot read (an arm of a match on something else, a helper's answer, a flag)? then no verdict;
+            # conditions it can read in full (is_empty / len / comparisons) and that do not test the output path are a definite finding
+            readable = True
+            for g in guards:
+                for y in H.walk(g):
+                    if isinstance(y, dict) and y.get("k") == "OtherArm":
+                        readable = False
+                    if H.kind(y) == "Call" or (H.kind(y) == "MethodCall" and y["name"] not in ("is_empty", "is_none", "is_some", "len", "as_ref", "as_deref")):
+                        readable = False
+                    if H.kind(y) == "Path" and (y.get("ty") or "") == "bool" and y["res"].get("local") is not None:
+                        readable = False
+            if guards and not readable:
+                ok = None
         ctx.inst("C19.R1", "main#empty-object-shortcut[%d]" % i, ok, "println!(\"{}\") of an empty outputs object is guarded by output_path.is_none(): %s" % ok, H.loc(n))
 
     # ---------------- R2 declaration order containers
